@@ -317,6 +317,9 @@ func evalTruth(v interface{}) bool { return v != nil }
 // newEvalEngine builds the engine of a case: templates registered in order, custom callbacks, policy.
 func newEvalEngine(c Case) *evalEngine {
 	ee := &evalEngine{eng: twig.New(), spy: map[string]int{}, regOK: true}
+	if evalEngineTweak != nil {
+		evalEngineTweak(ee.eng)
+	}
 	for _, cu := range c.list("custom") {
 		t, _ := cu.([]interface{})
 		if len(t) != 3 {
@@ -429,6 +432,10 @@ func (ee *evalEngine) render(name string, ctx map[string]interface{}) (out strin
 // runEvalCase executes the real engine on one case: output, error class, calls per custom callback.
 // A template of the set that does not parse gives class "parse" (the printer of evalgen.ml only writes
 // sources that parse; anything else is a finding of its own).
+// evalEngineTweak, when set, configures every engine newEvalEngine creates before anything is registered (engine
+// settings a property says nothing about must not matter to it)
+var evalEngineTweak func(*twig.Engine)
+
 func runEvalCase(c Case) (out string, errClass string, spyCounts map[string]int, detail string) {
 	ee := newEvalEngine(c)
 	if !ee.regOK {
